@@ -16,11 +16,14 @@ struct AItem
     std::string v;
 };
 
+// long names; the alternative set makes one declared name a proper prefix of another
+static std::string N_MULTI = "multi", N_UGG = "ugg";
+
 static Decl declaration(bool shorts)
 {
     Decl D;
-    D.items = { Item::opt("opt", shorts ? "o" : ""), Item::multi("multi", shorts ? "m" : ""),
-                Item::tog("tog", shorts ? "t" : ""), Item::tog("ugg", shorts ? "u" : "") };
+    D.items = { Item::opt("opt", shorts ? "o" : ""), Item::multi(N_MULTI, shorts ? "m" : ""),
+                Item::tog("tog", shorts ? "t" : ""), Item::tog(N_UGG, shorts ? "u" : "") };
     D.accepted = UNLIMITED;
     return D;
 }
@@ -30,9 +33,9 @@ static Res expected(const Decl& D, const std::vector<AItem>& as)
     Res r;
     r.ok = true;
     r.opt["opt"] = std::nullopt;
-    r.multi["multi"];
+    r.multi[N_MULTI];
     r.tog["tog"] = 0;
-    r.tog["ugg"] = 0;
+    r.tog[N_UGG] = 0;
     for (auto& a : as)
     {
         switch (a.type)
@@ -42,16 +45,16 @@ static Res expected(const Decl& D, const std::vector<AItem>& as)
             r.provided.insert("opt");
             break;
         case 'M':
-            r.multi["multi"].push_back(a.v);
-            r.provided.insert("multi");
+            r.multi[N_MULTI].push_back(a.v);
+            r.provided.insert(N_MULTI);
             break;
         case 'T':
             r.tog["tog"]++;
             r.provided.insert("tog");
             break;
         case 'U':
-            r.tog["ugg"]++;
-            r.provided.insert("ugg");
+            r.tog[N_UGG]++;
+            r.provided.insert(N_UGG);
             break;
         case 'P':
             r.pos.push_back(a.v);
@@ -79,7 +82,7 @@ static void renderings(bool shorts, const std::vector<AItem>& as, F&& f)
         auto& a = as[i];
         if (a.type == 'O' || a.type == 'M')
         {
-            std::string nm = a.type == 'O' ? "opt" : "multi", s = a.type == 'O' ? "o" : "m";
+            std::string nm = a.type == 'O' ? std::string("opt") : N_MULTI, s = a.type == 'O' ? "o" : "m";
             if (is_value_token(a.v))
                 alts[i].push_back({ { "--" + nm, a.v } });
             alts[i].push_back({ { "--" + nm + "=" + a.v } });
@@ -92,7 +95,7 @@ static void renderings(bool shorts, const std::vector<AItem>& as, F&& f)
         }
         else if (a.type == 'T' || a.type == 'U')
         {
-            alts[i].push_back({ { a.type == 'T' ? "--tog" : "--ugg" } });
+            alts[i].push_back({ { a.type == 'T' ? std::string("--tog") : "--" + N_UGG } });
             if (shorts)
                 alts[i].push_back({ { a.type == 'T' ? "-t" : "-u" }, a.type == 'T' ? 't' : 'u' });
         }
@@ -198,13 +201,13 @@ static ParserCheck make_check()
             if (args.as<std::string>("opt") != *o->second)
                 out.push_back({ "typed-access", "as<std::string>(opt) differs from the text" });
         }
-        auto m = r.multi.find("multi");
+        auto m = r.multi.find(N_MULTI);
         if (m != r.multi.end())
             for (size_t i = 0; i < m->second.size(); i++)
-                if (decimal_int(m->second[i], want) && args.count("multi") > i &&
-                    args.as<int>("multi", i) != static_cast<int>(want))
+                if (decimal_int(m->second[i], want) && args.count(N_MULTI) > i &&
+                    args.as<int>(N_MULTI, i) != static_cast<int>(want))
                     out.push_back({ "typed-access", "as<int>(multi," + std::to_string(i) + ") for text '" + m->second[i] +
-                                                        "' gives " + std::to_string(args.as<int>("multi", i)) });
+                                                        "' gives " + std::to_string(args.as<int>(N_MULTI, i)) });
     };
     return chk;
 }
@@ -232,8 +235,11 @@ int main(int argc, char** argv)
 
     auto sh = sharded(a, "C02");
     sh.walk = [&](mc::Ctx& ctx) {
-        for (int shorts = 1; shorts >= 0; shorts--)
+        for (int variant = 0; variant < 3; variant++)
         {
+            int shorts = variant != 1;
+            N_MULTI = variant == 2 ? "opt-x" : "multi";
+            N_UGG = variant == 2 ? "toggle" : "ugg";
             Decl D = declaration(shorts);
             for (auto& plan : plans)
             {
